@@ -128,15 +128,17 @@ def explain_case(c, text, err):
             return "KF-C02-8"
         if "expected an indented block" in err:
             return "KF-C02-9"
+        if "duplicate argument" in err:
+            return "KF-C02-12"
     if "var-positional argument cannot have default value" in err or "* argument may appear only once" in err:
         return "KF-C02-4"
-    if re.search(r"^class (None|True|False)\b", text, re.M):
+    if re.search(r"^\s*(class|def) (None|True|False)\b", text, re.M):
         return "KF-C02-10"
     if "class Union" in c["src"] and re.search(r"^\s*\w+:\s+= ", text, re.M):
         return "KF-C02-11"
     if re.search(r"^(from \S+ )?import\s*$", text, re.M):
         return "KF-C02-5"
-    if re.search(r"(= |return )if .*:\s*$", text, re.M):
+    if re.search(r"(= |return )(if|for|while) .*:\s*$", text, re.M) or re.search(r"^\s*return \w+(: [\w\[\], ]+)? = ", text, re.M):
         return "KF-C02-2"
     if re.search(r"^\s*= \(\)", text, re.M):
         return "KF-C02-3"
